@@ -19,8 +19,14 @@ Inductive expr :=
 | ELocals.                           (* dict(locals()) *)
 
 Definition NameErrorC := under_exception "NameError" [].
+(* user code evaluating `C(tag)`: a ContractError subclass takes its first argument as the message *)
 Definition user_exn (c : cls) (tag : Z) : prog exn :=
-  e <- fresh_exn (mk_exn c [VInt tag]) ;; log (EvRaised tag (e_id e)) ;;; Ret e.
+  let base := mk_exn c [VInt tag] in
+  let e0 := if subclass_of c "ContractError"
+            then {| e_cls := c; e_id := 0; e_args := [VInt tag]; e_cause := None; e_ctx := None;
+                    e_deal := Some {| d_message := show_Z tag; d_has_errors := false; d_params := []; d_origin := None; d_validator := None |} |}
+            else base in
+  e <- fresh_exn e0 ;; log (EvRaised tag (e_id e)) ;;; Ret e.
 Definition as_int (v : value) : option Z := match v with VInt z => Some z | VBool b => Some (if b then 1 else 0)%Z | _ => None end.
 Definition py_eq (a b : value) : bool :=
   match as_int a, as_int b with
